@@ -513,6 +513,44 @@ impl<'o> Explore<'o> {
             }
         }
         self.twins(op, t, a, items, &itok, &oks);
+        self.odd_replies(op, t, a, items, &itok, &oks);
+    }
+
+    /// Replies the protocol does not allow anywhere, chosen to be awkward to *report*: data-carrying messages with
+    /// long payloads (128, 255 bytes), with text payloads in which a multi-byte character sits across every offset
+    /// from 20 to 34, with control characters and quotes — put in place of each reply of a few successful
+    /// conversations.  The controller must answer each with its protocol error (building the error text included).
+    fn odd_replies(&mut self, op: &str, t: usize, a: u16, items: &[Vec<u8>], itok: &str, oks: &[Vec<String>]) {
+        let mut odd: Vec<String> = vec![];
+        for len in [24usize, 25, 127, 128, 129, 200, 255] {
+            let d: Vec<u8> = (0..len).map(|i| (i * 5 + 3) as u8).collect();
+            odd.push(format!("SD,0000,{}", to_hex(&d)));
+            odd.push(format!("UN,{:04X},42,{}", a, to_hex(&d)));
+        }
+        for shift in 0..15usize {
+            let mut text: Vec<u8> = vec![b'a'; 20 + shift];
+            for _ in 0..6 {
+                text.extend_from_slice("€é".as_bytes());
+            }
+            text.extend_from_slice(b"tail");
+            odd.push(format!("UN,{:04X},09,{}", a, to_hex(&text)));
+            odd.push(format!("SD,0010,{}", to_hex(&text)));
+        }
+        odd.push(format!("UN,{:04X},09,{}", a, to_hex("\"quoted\" {braces} %s \\n 𝄞𝄞𝄞𝄞𝄞𝄞𝄞𝄞𝄞𝄞".as_bytes())));
+        for s in oks.iter().take(3) {
+            for k in 0..s.len() {
+                for (oi, o) in odd.iter().enumerate() {
+                    if (k + oi) % 3 != 0 && k + 1 != s.len() {
+                        continue; // every odd reply at the last position, a third of them elsewhere
+                    }
+                    let mut s2 = s[..k].to_vec();
+                    s2.push(o.clone());
+                    let c = run_conv(op, t, a, items, itok, &s2);
+                    self.out.stat("ctrl.awkward-to-report-reply");
+                    self.visit(&c);
+                }
+            }
+        }
     }
 
     /// Every successful conversation found above, with each of the sign's own reports / acknowledgements replaced —
